@@ -1398,6 +1398,21 @@ func c42Live(c *c42ctx) {
 			}
 			found = true
 			reach := g.ReachFromEntry(g.Calling(filter), nil)
+			if g.Body != f.Decl.Body {
+				// a local closure: the wrapping may have happened in the enclosing function before the
+				// closure was created (the loop was merely extracted into `find := func() …`)
+				pg := f.Graph()
+				var litNode *core.Node
+				ast.Inspect(f.Decl.Body, func(x ast.Node) bool {
+					if fl, ok := x.(*ast.FuncLit); ok && fl.Body == g.Body {
+						litNode = pg.NodeOf(fl)
+					}
+					return true
+				})
+				if litNode != nil && !pg.ReachFromEntry(pg.Calling(filter), nil)[litNode] {
+					reach = map[*core.Node]bool{}
+				}
+			}
 			bad := false
 			for _, a := range direct {
 				if reach[a] {
